@@ -121,9 +121,9 @@ func Compress(compression string, data []byte) ([]byte, error) {
 // W is a positional file writer.
 type W struct{ B []byte }
 
-func (w *W) Pos() uint64      { return uint64(len(w.B)) }
-func (w *W) Raw(b []byte)     { w.B = append(w.B, b...) }
-func (w *W) Magic()           { w.Raw(Magic) }
+func (w *W) Pos() uint64  { return uint64(len(w.B)) }
+func (w *W) Raw(b []byte) { w.B = append(w.B, b...) }
+func (w *W) Magic()       { w.Raw(Magic) }
 func (w *W) Rec(op byte, body []byte) (pos, length uint64) {
 	pos = w.Pos()
 	w.Raw(Frame(op, body))
